@@ -339,7 +339,7 @@ def check(ctx) -> None:
     if "confident_cnt" in key_site:
         g, n, v = key_site["confident_cnt"]
         cname = v.id if isinstance(v, ast.Name) else None
-        has_counter = cname is not None and any(isinstance(x, ast.AugAssign) and isinstance(x.target, ast.Name) and x.target.id == cname for x in own_nodes(g.node))
+        has_counter = cname is not None and any(isinstance(x, ast.AugAssign) and isinstance(x.target, ast.Name) and x.target.id in _copy_closure(g, cname) for x in own_nodes(g.node))
         if cname is not None and not has_counter:
             # arrays compared with the threshold for the count vs. for the demotion
             def cmp_arrays(e):
@@ -471,10 +471,22 @@ def _balanced_source(ctx, g: Func, v: ast.AST):
     return labels == want, "len(%s) minus the selections by %s (labels other than 'Balance': %s)" % (base, sorted(labels), sorted(want))
 
 
+def _copy_closure(g: Func, name: str) -> Set[str]:
+    """names whose value reaches `name` through plain copies (`name = other`)"""
+    out, work = {name}, [name]
+    while work:
+        x = work.pop()
+        for _st, v, i in assignments_to(g, x):
+            if i is None and isinstance(v, ast.Name) and v.id not in out:
+                out.add(v.id)
+                work.append(v.id)
+    return out
+
+
 def _feeds(g: Func, counter: str, key: str) -> bool:
     for n in own_nodes(g.node):
         if isinstance(n, ast.Assign) and any(isinstance(t, ast.Subscript) and const_str(t.slice) == key for t in n.targets):
-            if isinstance(n.value, ast.Name) and n.value.id == counter:
+            if isinstance(n.value, ast.Name) and counter in _copy_closure(g, n.value.id):
                 return True
     return False
 
